@@ -17,6 +17,12 @@ impl SimulationBoundary {
         periodic: bool,
         dimensionality: Dimensionality,
     ) -> Self {
+        // Integer grid used by the exact predicates: it must contain every generator, all periodic
+        // images and all mirror images through the (tripled) walls, i.e. [anchor - 3 width,
+        // anchor + 4 width]. A single scale for all axes keeps the in-sphere predicate invariant
+        // and a power of two keeps the snapping exact for dyadic offsets.
+        let grid_anchor = anchor - 6. * width;
+        let grid_scale = (16. * width.max_element()).log2().ceil().exp2().recip();
         if periodic {
             anchor.x -= width.x;
             width.x *= 3.;
@@ -39,8 +45,8 @@ impl SimulationBoundary {
         ];
 
         Self {
-            anchor: anchor - width,
-            inverse_width: 1. / (3. * width),
+            anchor: grid_anchor,
+            inverse_width: DVec3::splat(grid_scale),
             dimensionality,
             clipping_planes,
         }
